@@ -114,4 +114,12 @@ theorem decimal_field_escaped (env : Iso.Env) (f : Iso.FieldCfg) (h : f.pytype =
   have hd : pyDecimal asciiClasses [49, 50, 97, 98, 46, 53] = none := by decide
   simp [convertBefore, Iso.stringToPyType, h, hk, hd, Outcome.catchAs, Iso.isValueError, Iso.isConvError]
 
+/-! ### C14: key components combined with a fixed width of 32 hex digits -/
+
+/-- a 24-byte component starting with a zero nibble: the pre-fix `:032x` rendering has 47 hex
+    digits (odd: `unhexlify` raised), the fixed rendering keeps the component's 48 -/
+theorem triple_length_component_lost_a_digit :
+    (Pin.fmtHexW 32 (16 ^ 46)).length = 47 ∧ (Pin.fmtHexW 48 (16 ^ 46)).length = 48 := by
+  decide +kernel
+
 end Cardutil.Legacy
